@@ -107,6 +107,13 @@ class HeapMixin(object):
   def to_val(self, st, v):
     if isinstance(v, VTuple):
       v = self.box_tuple(st, v)
+    if isinstance(v, VBool) and not z3.is_const(v.t):
+      txt = v.t.sexpr()
+      if '(forall' in txt or '(exists' in txt:
+        # a quantified formula cannot be skolemised / instantiated once buried inside a datatype term: name it
+        b = fresh('qb', z3.BoolSort())
+        st.axiom(b == v.t)
+        return Val.VB(b)
     return vv.to_val(v)
 
   def from_val(self, st, term, hint=None, assume_shape=True, check=False):
@@ -286,6 +293,7 @@ class HeapMixin(object):
     return VRef('list', term, elem=getattr(d, 'keykind', None))
 
   def dict_set_raw(self, st, d, dom=None, val=None, keys=None):
+    self.drop_keypos(st, d)
     if dom is not None:
       st.heap[('dict', 'dom')] = z3.Store(st.harr(('dict', 'dom'), ARR_VB), d.t, dom)
     if val is not None:
@@ -328,17 +336,45 @@ class HeapMixin(object):
     self.dict_set_raw(st, d, z3.Store(self.dict_dom(st, d), kt, z3.BoolVal(True)),
                       z3.Store(self.dict_val(st, d), kt, self.to_val(st, v)))
 
+  def keypos_fn(self, st, d):
+    """Position function of the dict (creates and assumes well-formedness on first use in this state lineage).
+
+    Registered per state under the dict reference; a mutation of a dict drops the registrations of every dict that may
+    be the same object, so a function is never assumed well-formed for two different contents."""
+    key = ('$keypos', d.t.get_id())
+    ent = st.ghost.get(key)
+    if ent is None:
+      self.__dict__['_keypos_n'] = self.__dict__.get('_keypos_n', 0) + 1
+      pos = z3.Function('keypos!%d' % self._keypos_n, Val, I)
+      st.ghost[key] = (pos, d.t)
+      st.axiom(self._dict_wf(st, d, pos))
+      return pos
+    return ent[0]
+
+  def drop_keypos(self, st, d=None):
+    for k in [k for k in st.ghost if isinstance(k, tuple) and k[0] == '$keypos']:
+      ref = st.ghost[k][1]
+      if d is not None:
+        same = z3.simplify(ref == d.t)
+        if z3.is_false(same) or (not z3.is_true(same) and not self.feasible(st, same)):
+          continue
+      del st.ghost[k]
+
   def dict_wf(self, st, d):
-    """Well-formedness of the key list w.r.t. the domain (assumed for pre-state dicts that are iterated).
+    self.keypos_fn(st, d)
+    return z3.BoolVal(True)
+
+  def _dict_wf(self, st, d, pos):
+    """Well-formedness of the key list w.r.t. the domain (assumed for dicts that are iterated).
 
     Skolemised: a position function pos with keys[pos(k)] == k for every k in the domain and pos(keys[i]) == i for every
-    index (hence distinct keys).  The function is remembered per dict so that invariants can use keypos(d, k)."""
+    index (hence distinct keys)."""
+    if pos is None:
+      return None
     keys = self.dict_keys(st, d)
     n = self.list_len(st, keys)
     items = self.list_items(st, keys)
     dom = self.dict_dom(st, d)
-    pos = z3.Function('keypos!%d' % fresh('x', I).get_id(), Val, I)
-    st.ghost[('$keypos', d.t.get_id())] = pos
     i = z3.Int('wf_i')
     k = z3.Const('wf_k', Val)
     shape = []
